@@ -437,7 +437,13 @@ let pd file =
            | None, Some i -> Printf.printf "ident %d %d %d %d %d %d %d\n" (iz i.i_channels) (iz i.i_rate) (iz i.i_upper) (iz i.i_nominal) (iz i.i_lower) (iz i.i_bs0) (iz i.i_bs1)
            | _ -> ());
           (match before.h_setup, s'.h_setup with
-           | None, Some st -> Printf.printf "setup %d %d %d %d %d\n" (List.length st.s_books) (List.length st.s_floors) (List.length st.s_residues) (List.length st.s_maps) (List.length st.s_modes)
+           | None, Some st ->
+               Printf.printf "setup %d %d %d %d %d\n" (List.length st.s_books) (List.length st.s_floors) (List.length st.s_residues) (List.length st.s_maps) (List.length st.s_modes);
+               (* re-pack what was parsed with the model of the header packers: equal bytes = the packers and the parser are inverse on this header *)
+               let ch = (match s'.h_ident with Some i -> i.i_channels | None -> zi 0) in
+               let has_floor0 = List.exists (function Floor0 _ -> true | _ -> false) st.s_floors in
+               if not has_floor0 then
+                 Printf.printf "repack %s\n" (if setup_packet ch st = bytes_of_hex h then "same" else "differs")
            | _ -> ())
         end
     | ["init"] ->
